@@ -258,7 +258,8 @@ class MPI(long):
         return ((self.bit_length() + 7) // 8)
 
     def to_mpibytes(self):
-        return MPIs.int_to_bytes(self.bit_length(), 2) + MPIs.int_to_bytes(self, self.byte_length())
+        # zero is a bit count of 0 followed by no value octets (RFC 4880 3.2)
+        return MPIs.int_to_bytes(self.bit_length(), 2) + (MPIs.int_to_bytes(self, self.byte_length()) if self else b'')
 
     def __len__(self):
         return self.byte_length() + 2
